@@ -141,6 +141,17 @@ impl Mat {
         }
         w / m
     }
+    /// max |a_ij - a_ji| / sqrt(a_ii a_jj)
+    pub fn asym_scaled(&self) -> f64 {
+        let mut w: f64 = 0.0;
+        for i in 0..self.r {
+            for j in 0..i {
+                let s = (self.at(i, i) * self.at(j, j)).abs().sqrt().max(1e-300);
+                w = w.max((self.at(i, j) - self.at(j, i)).abs() / s);
+            }
+        }
+        w
+    }
     /// eigenvalues of a symmetric matrix (cyclic Jacobi)
     pub fn sym_eigenvalues(&self) -> Vec<f64> {
         let n = self.r;
